@@ -2,11 +2,11 @@
 # tools/confirm_all.sh C01 C02 ...  -- confirm every /tmp/mw-<ID>-out/m*/ and run the owning check; log to /tmp/confirm/<ID>-m<k>.log
 mkdir -p /tmp/confirm
 for id in "$@"; do
-  for d in /tmp/mw-$id-out/m*/; do
+  for d in /tmp/${PREFIX:-mw}-$id-out/m*/; do
     [ -f "$d/patch.diff" ] || continue
     k=$(basename "$d")
-    [ -f /tmp/confirm/$id-$k.log ] && continue
-    /verif/tools/confirm_seeded.sh "$d" "$id" > /tmp/confirm/$id-$k.log 2>&1
-    echo "$id $k: $(grep -a '^RESULT' /tmp/confirm/$id-$k.log) | $(grep -a '^check ' /tmp/confirm/$id-$k.log | tr '\n' ' ')"
+    [ -f /tmp/confirm/${PREFIX:-mw}-$id-$k.log ] && continue
+    /verif/tools/confirm_seeded.sh "$d" "$id" > /tmp/confirm/${PREFIX:-mw}-$id-$k.log 2>&1
+    echo "$id $k: $(grep -a "^RESULT" /tmp/confirm/${PREFIX:-mw}-$id-$k.log) | $(grep -a "^check " /tmp/confirm/${PREFIX:-mw}-$id-$k.log | tr '\n' ' ')"
   done
 done
